@@ -340,6 +340,14 @@ int32_t jls_twr_signal_def(struct jls_twr_s * self, const struct jls_signal_def_
     return rv;
 }
 
+// data_size only describes BINARY data: strings are queued up to and including their terminator
+static uint32_t msg_data_size(enum jls_storage_type_e storage_type, const uint8_t * data, uint32_t data_size) {
+    if ((NULL != data) && ((storage_type == JLS_STORAGE_TYPE_STRING) || (storage_type == JLS_STORAGE_TYPE_JSON))) {
+        return (uint32_t) strlen((const char *) data) + 1;
+    }
+    return data_size;
+}
+
 int32_t jls_twr_user_data(struct jls_twr_s * self, uint16_t chunk_meta,
                           enum jls_storage_type_e storage_type, const uint8_t * data, uint32_t data_size) {
     struct msg_header_s hdr = {
@@ -352,7 +360,7 @@ int32_t jls_twr_user_data(struct jls_twr_s * self, uint16_t chunk_meta,
             },
             .d = 0
     };
-    return msg_send(self, &hdr, data, data_size);
+    return msg_send(self, &hdr, data, msg_data_size(storage_type, data, data_size));
 }
 
 int32_t jls_twr_fsr(struct jls_twr_s * self, uint16_t signal_id,
@@ -424,7 +432,7 @@ int32_t jls_twr_annotation(struct jls_twr_s * self, uint16_t signal_id, int64_t 
             },
             .d = 0
     };
-    return msg_send(self, &hdr, data, data_size);
+    return msg_send(self, &hdr, data, msg_data_size(storage_type, data, data_size));
 }
 
 JLS_API int32_t jls_twr_utc(struct jls_twr_s * self, uint16_t signal_id, int64_t sample_id, int64_t utc) {
